@@ -58,8 +58,17 @@ def plan():
     for r in ("sync", "patch", "fdel"):
         for c in ("unknown", "otherbytes", "toB"):
             reqs.append("%s.%s.1" % (r, c))
-    # accepted, state-changing requests last
+    for r in ("head", "status", "scan"):
+        reqs.append("%s.dropped.1" % r)           # d2 is still trusted
+    # accepted, state-changing requests
     reqs += ["sync.valid.1", "fmove.valid.1", "fdel.valid.1", "patch.valid.1", "update.valid.1", "create.valid.1"]
+    # phase 2: a rewinding device-log patch cuts Trust(d2) (and Revoke(d1)) off the log: the trusted set follows the log
+    for r in READ_ROUTES + ["sync", "patch", "fdel"]:
+        reqs.append("%s.dropped.2" % r)
+    for r in ("head", "status", "fetch"):
+        reqs.append("%s.valid.2" % r)
+        reqs.append("%s.revoked.2" % r)           # d1's revocation was cut off too: the log trusts it again
+        reqs.append("%s.unknown.2" % r)
     return reqs
 
 
@@ -100,7 +109,8 @@ def accepted_by_design(case, kv):
     c, ph = kv["cred"], kv["phase"]
     if c == "valid": return True
     if c == "bodyswap": return False        # the property: the signature must cover exactly the request body
-    if c == "revoked" and ph == "0": return True
+    if c == "revoked" and ph in ("0", "2"): return True      # phase 2: the Revoke event is no longer in the device log
+    if c == "dropped" and ph in ("0", "1"): return True
     if c == "denyhdr": return acc in ("none", "allowA_never", "denyO")     # A2 is refused by allowA, denyA2, both
     return False
 
